@@ -2236,6 +2236,99 @@ def r10_finder_invalidated(run):
         run.check(okv, 'the finder slot is set to a fresh compile or to the lazy-compile stub', f, cfg.node(nid).ast)
 
 
+# ---------------------------------------------------------------------------
+# R11 converter bounds: "no bound" is None, never a falsy number
+# ---------------------------------------------------------------------------
+
+def r11_converter_bounds(run):
+    """A numeric converter option (min, max, num_digits) whose constructor
+    parameter is Optional[<number>] uses None for "not given"; 0 and 0.0 are
+    real bounds.  Every test of such an option must therefore be an identity
+    test against None -- a truthiness test (`if x`, `not x`, `x or y`,
+    `x and y`) treats the bound 0 as absent and the converter stops vetoing.
+    W: /items/{idx:int(min=0)} accepts idx=-1 instead of backtracking."""
+    p = run.project
+    mod = p.module('falcon.routing.converters')
+    numeric_attrs = {}   # attr name -> (class qual, stmt)
+    for cq, c in sorted(p.classes.items()):
+        if c.module is not mod:
+            continue
+        init = c.methods.get('__init__')
+        if init is None:
+            continue
+        ann = {}
+        for a in init.node.args.args + init.node.args.kwonlyargs:
+            if a.annotation is not None:
+                t = ast.unparse(a.annotation)
+                if ('Optional' in t or 'None' in t) and ('int' in t or 'float' in t) and 'bool' not in t:
+                    ann[a.arg] = t
+        # an option whose constructor rejects 0 (`x < 1` / `x <= 0` -> raise) has no
+        # falsy legal value: truthiness and `is not None` agree for it
+        for st in walk_no_nested(init.node):
+            if isinstance(st, ast.If) and any(isinstance(b, ast.Raise) for b in st.body):
+                for cmp_ in ast.walk(st.test):
+                    if isinstance(cmp_, ast.Compare) and len(cmp_.ops) == 1 and isinstance(cmp_.left, ast.Name) and cmp_.left.id in ann \
+                            and isinstance(cmp_.comparators[0], ast.Constant):
+                        cv = cmp_.comparators[0].value
+                        if (isinstance(cmp_.ops[0], ast.Lt) and cv == 1) or (isinstance(cmp_.ops[0], ast.LtE) and cv == 0):
+                            ann.pop(cmp_.left.id, None)
+        for st in walk_no_nested(init.node):
+            if isinstance(st, ast.Assign) and isinstance(st.value, ast.Name) and st.value.id in ann:
+                for t in st.targets:
+                    if isinstance(t, ast.Attribute) and isinstance(t.value, ast.Name) and t.value.id == 'self':
+                        numeric_attrs[t.attr] = (cq, st)
+    if len(numeric_attrs) < 2:
+        raise AnchorError('numeric Optional options of the converters not found: %s' % sorted(numeric_attrs))
+
+    def truthiness_uses(fn):
+        """attribute reads `X.<attr>` used for their truth value"""
+        out = []
+
+        def visit(e, boolctx):
+            if isinstance(e, ast.Attribute) and e.attr in numeric_attrs and boolctx:
+                out.append(e)
+                return
+            if isinstance(e, ast.BoolOp):
+                for v in e.values:
+                    visit(v, True)
+                return
+            if isinstance(e, ast.UnaryOp) and isinstance(e.op, ast.Not):
+                visit(e.operand, True)
+                return
+            if isinstance(e, ast.IfExp):
+                visit(e.test, True)
+                visit(e.body, False)
+                visit(e.orelse, False)
+                return
+            for ch in ast.iter_child_nodes(e):
+                if isinstance(ch, ast.expr):
+                    visit(ch, False)
+
+        for n in walk_no_nested(fn.node):
+            if isinstance(n, (ast.If, ast.While)):
+                visit(n.test, True)
+            elif isinstance(n, ast.Assert):
+                visit(n.test, True)
+            elif isinstance(n, ast.stmt):
+                for ch in ast.iter_child_nodes(n):
+                    if isinstance(ch, ast.expr):
+                        visit(ch, False)
+        return out
+
+    n_fn = 0
+    for fn in p.all_functions('falcon.routing.converters.'):
+        reads = [x for x in ast.walk(fn.node) if isinstance(x, ast.Attribute) and x.attr in numeric_attrs and isinstance(x.ctx, ast.Load)]
+        if not reads:
+            continue
+        n_fn += 1
+        bad = truthiness_uses(fn)
+        run.check(not bad, '%s tests numeric converter options by identity with None, never by truthiness' % fn.qual, fn,
+                  bad[0] if bad else 'reads of %s' % ', '.join(sorted({x.attr for x in reads})), where=fn.loc(bad[0] if bad else None),
+                  runtime_witness='int(min=0) / float(max=0): a value on the wrong side of zero is accepted, the lookup does not backtrack')
+    if n_fn < 1:
+        raise AnchorError('converter functions reading numeric options not found (%d)' % n_fn)
+
+
 def check(run):
     run.assume('a rejection is an exception in the E5 summary of add_route (explicit raises, closed over resolved callees); '
                'other exceptions (IndexError, MemoryError, ...) are internal errors, not rejections')
@@ -2254,5 +2347,6 @@ def check(run):
     # (with everything still referenced being emitted) is not by itself an analysis error
     run.rule('R7', r7_conflict_table, 'conflicts_with on the 3x3 node kinds', floor=6)
     run.rule('R8', r8_pruning, 'fast_return pruning is only ever conservative', floor=5)
+    run.rule('R11', r11_converter_bounds, 'converter bounds are tested against None, not by truthiness', floor=1)
     run.rule('R10', r10_finder_invalidated, 'every accepted add_route invalidates or rebuilds the compiled finder', floor=3)
     run.rule('R9', r9_quoted_placeholders, 'only validated field names are rendered between quotes of the generated source', floor=5)
